@@ -206,6 +206,39 @@ def collect(ctx, mode):
                     groups.setdefault(gk, []).append(rec)
                     recs.append(rec)
 
+    # --- many shards per scale (more than any bound on simultaneously open shards),
+    # raster orders that keep returning to shards opened long before --------------
+    for k in range(ctx.pick(6, 80)):
+        grid = ctx.rng.choice([[4, 4, 2], [3, 3, 3], [5, 4, 2], [2, 9, 2]])
+        cfg = {"grid": grid, "pb": 0, "mb": ctx.rng.choice([0, 1]), "sb": ctx.rng.choice([5, 6]),
+               "enc": ctx.rng.choice(["raw", "gzip"])}
+        pos = sd.all_pos(grid)
+        raster = sorted(pos)                                   # x slowest (numpy.ndindex order)
+        order = [raster, raster[::-1], sorted(pos, key=lambda p: (p[2], p[1], p[0]))][k % 3]
+        if k % 4 == 3:
+            order = list(pos)
+            ctx.rng.shuffle(order)
+        salt = ctx.rng.randrange(1 << 30)
+        gk = json.dumps([cfg, "many-shards", salt])
+        for st in ("in memory", "on disk") if k % 2 else ("in memory",):
+            rec = sd.run_session(work, cfg, order, strategy=st, salt=salt)
+            sd.drop_dir(rec)
+            groups.setdefault(gk, []).append(rec)
+            recs.append(rec)
+    # --- a writer process that stores and ends WITHOUT calling close(): the flush is
+    # the accessor's own exit handler ----------------------------------------------
+    for cfg in gen_random_cfgs(ctx, ctx.pick(6, 60)):
+        if cfg["pb"] > 8:
+            continue
+        sub, order = subset_and_order(ctx, cfg)
+        salt = ctx.rng.randrange(1 << 30)
+        gk = json.dumps([cfg, sorted(sub), salt, "exit-flush"])
+        for st, xf in (("in memory", False), (ctx.rng.choice(["in memory", "on disk", "on disk"]), True)):
+            rec = sd.run_session(work, cfg, order, strategy=st, salt=salt, exit_flush=xf)
+            sd.drop_dir(rec)
+            groups.setdefault(gk, []).append(rec)
+            recs.append(rec)
+
     framing = set()
     for gk, rs in groups.items():
         hashes = sorted({r["hash"] for r in rs})
